@@ -690,6 +690,7 @@ func (h *hmapType) enumerateWith(fi *core.FuncInfo, cl *hmapClassifier, mode str
 		}
 		if !seen {
 			cl.bodies = append(cl.bodies, cfi.Decl.Body)
+			cl.ptrAlias = nil // the helper's own abbreviations (head := this.header) are collected too
 		}
 		return cfi.Decl.Body
 	}
@@ -1829,12 +1830,28 @@ func (h *hmapType) checkRehash() {
 			continue
 		}
 		mcl := newHmapClassifier(m)
-		ast.Inspect(m.Decl.Body, func(n ast.Node) bool {
-			if be, ok := n.(*ast.BinaryExpr); ok && be.Op == token.REM && strings.Contains(mcl.norm(be.Y), "len(") {
-				lookKinds[hashExprKind(mcl, be.X)] = true
-			}
-			return true
-		})
+		min := newInliner(h.p, m, nil)
+		var scan func(root ast.Node, depth int)
+		scan = func(root ast.Node, depth int) {
+			ast.Inspect(root, func(n ast.Node) bool {
+				switch v := n.(type) {
+				case *ast.BinaryExpr:
+					if v.Op == token.REM && strings.Contains(mcl.norm(v.Y), "len(") {
+						lookKinds[hashExprKind(mcl, v.X)] = true
+					}
+				case *ast.CallExpr:
+					// a bucket helper (func bucket(key, n) uint { return uint(key) % uint(n) }) reads as
+					// its body with the arguments in place
+					if depth < 2 {
+						if ex := min.Expand(v); ex != ast.Expr(v) {
+							scan(ex, depth+1)
+						}
+					}
+				}
+				return true
+			})
+		}
+		scan(m.Decl.Body, 0)
 	}
 	var lk []string
 	for k := range lookKinds {
